@@ -40,6 +40,11 @@ class Contract:
     note: str = ""
     self_class: str | None = None                   # override the class assumed for `self`
     options: dict = field(default_factory=dict)
+    variant: str = ""                               # several contracts for one function (different argument types)
+
+    @property
+    def key(self):
+        return self.target + ("#" + self.variant if self.variant else "")
 
     def label_ensures(self):
         out = []
